@@ -138,7 +138,7 @@ def parseRecord (st : PState) (toks : List String) : Option PState :=
       if rest2.length ≠ n + 2 then none else
       let rf ← (rest2.take n).mapM parseFlags
       let calleeS := rest2.getD n ""
-      let arg0 ← vid (rest2.getD (n + 1) "")
+      let arg0 ← (let a := rest2.getD (n + 1) ""; if a = "-" then some (big + 1) else a.toNat?)
       let id := st.nextCallee
       let (callee, st1) : Callee × PState :=
         if calleeS.startsWith "builtin:" then (.builtin (parseBi (calleeS.drop 8).toString), st)
@@ -290,7 +290,19 @@ def stepPkg (line : String) : String :=
               s!"F {p.name} {status} real={showVNs real} model={showVNs shown} cert={showBool cert}")
     " | ".intercalate (pkg :: outs)
 
+/-- `S <ptrlike><iface> <inner><outer>`: the decision of sa4023.go for `f() == nil` given what
+`Result.Nilness` returned for the compared result. -/
+def stepSA (toks : List String) : String :=
+  match toks with
+  | [fl, vn] =>
+    match parseFlags fl, parseVN vn with
+    | some f, some v => showBool ((v.outer == .never) && sa4023Flags f (some v))
+    | _, _ => "bad-op"
+  | _ => "bad-op"
+
 def step (line : String) : String :=
-  if line.trimAscii.isEmpty then "bad-op" else stepPkg line
+  if line.trimAscii.isEmpty then "bad-op"
+  else if line.startsWith "S " then stepSA ((tokens line).drop 1)
+  else stepPkg line
 
 end Verif.C15
